@@ -82,6 +82,12 @@ TrObsS == /\ IsEvent("obsS") /\ Consume
                /\ Ev.nvis = Size /\ Ev.sorted = 1
           /\ Mode = "bal" => DepthOK(Ev.maxd, Ev.n)
           /\ UNCHANGED <<vars, ty, nf>>
+(* deep AVL scenario (harness: deep_scenario): after the removal of the deepest leaf of a worst-case tree of Ev.n pairs every key but the *)
+(* removed one is found, and no node has subtrees whose heights differ by more than one (the AVL rule of TreeShape, at a size no graph reaches) *)
+TrDeep == /\ IsEvent("deep") /\ Consume
+          /\ (Ev.skipped = 0 => /\ (Mode = "map" => Ev.after = Ev.n - 1 /\ Ev.lookups_ok = 1)
+                                /\ (Mode = "bal" => Ev.lookups_ok = 1 /\ Ev.maxdiff <= 1))
+          /\ UNCHANGED <<vars, ty, nf>>
 (* traversal stopped at the at-th callback, followed by what a second, full traversal saw *)
 TrFst == /\ IsEvent("fst") /\ Consume
          /\ alive
@@ -93,6 +99,6 @@ TrReset == /\ IsEvent("Reset") /\ Consume
            /\ m' = <<>> /\ alive' = FALSE /\ dead' = {} /\ lastD' = {} /\ lastR' = FALSE
            /\ nextId' = 1 /\ ty' = 0 /\ nf' = 0
 
-TNext == TrNew \/ TrIns \/ TrRem \/ TrClr \/ TrFre \/ TrObs \/ TrObsS \/ TrFst \/ TrReset
+TNext == TrDeep \/ TrNew \/ TrIns \/ TrRem \/ TrClr \/ TrFre \/ TrObs \/ TrObsS \/ TrFst \/ TrReset
 TSpec == TInit /\ [][TNext]_tvars
 ====
